@@ -96,7 +96,7 @@ ASSUMPTIONS = [
     "and an admissible trajectory (sigma never negative; a vial with ice keeps some) - the last one is monitored on "
     "every real run: the clauses of the theorems that assume it are evaluated only on trajectories that satisfy it; runs "
     "that leave it are counted under the distribution tag 'outside_hypothesis=adm…' (never a violation); generators keep "
-    "dt*Hsum <= 0.85*m*c_p except for a small stream tagged 'unstable-stream'",
+    "dt*Hsum <= 0.85*m*c_p_min except for a small stream tagged 'unstable-stream'",
     "query times: every real t is evaluated. t < 0 -> both paths must give the initial state (0 nucleated). t beyond the "
     "last grid time: the stats path must count every recorded vial; the states path must report the LAST stored column - "
     "the code reads column 0 (argmax of an all-False array), reported as known finding K7 (own key "
@@ -566,13 +566,16 @@ _LIMIT = {}
 
 
 def stable_dt_limit(k, shape):
-    """largest dt with dt * Hsum <= 0.85 * m * c_p (explicit scheme of the loop stays monotone): Hsum is the
+    """largest dt with dt * Hsum <= 0.85 * m * c_p_min (explicit scheme of the loop stays monotone in the liquid AND the frozen state): Hsum is the
     largest total conductance of a vial (neighbours + surroundings + shelf incl. its scatter)."""
     if not _LIMIT:
         from ethz_snow.constants import calculateDerived
 
         c = calculateDerived(None)
-        _LIMIT["A"], _LIMIT["hl"] = float(c["A"]), float(c["hl"])
+        # m*c_p_min: the smallest heat capacity a vial can have is that of the fully frozen product
+        # (c_p,ice < c_p,water), about half of the liquid one
+        cp_min = float(c["solid_fraction"]) * float(c["cp_s"]) + (1 - float(c["solid_fraction"])) * min(float(c["cp_i"]), float(c["cp_w"]))
+        _LIMIT["A"], _LIMIT["hl"] = float(c["A"]), min(float(c["hl"]), float(c["mass"]) * cp_min)
     nb = 6 if shape[2] > 1 else 4
     hsum = (nb * k.get("int", 0) + 4 * k.get("ext", 0) + k.get("s0", 0) * (1 + 3 * k.get("s_sigma_rel", 0.0))) * _LIMIT["A"]
     return math.inf if hsum <= 0 else 0.85 * _LIMIT["hl"] / hsum
@@ -623,7 +626,7 @@ def predicates(case, impl):
         # trajectory is itself reported)
         bad = [stored[r] for r, ok in enumerate(adm) if not ok]
         F("outside_adm_in_stable_range", "run", "sigma<0-or-ice-lost",
-          f"vials {bad[:5]}: sigma negative or ice lost in a run generated INSIDE the stable range dt*Hsum <= 0.85*m*c_p")
+          f"vials {bad[:5]}: sigma negative or ice lost in a run generated INSIDE the stable range dt*Hsum <= 0.85*m*c_p_min")
 
     if impl.get("requery_changed"):
         F("accessor_pure", "+".join(impl["requery_changed"][:4]), "in-place-mutation-of-returned-array",
